@@ -146,7 +146,8 @@ def make_fragment(mod, fn, frag):
     """Mechanical extraction of a loop body out of a long method, done on every run from the current source.
 
     '@loopbody(v)' selects the unique `for` statement inside `fn` whose direct body assigns the plain name `v`
-    and wraps that body, unchanged, as
+    (or imports it); '@ifbody(v)' the unique `if` statement with that property (its true branch).  The body is
+    wrapped, unchanged, as
 
         def <fn>__loopbody_v(<every name the body reads that is neither a builtin nor a module-level name>):
             <the body statements, verbatim>
@@ -157,17 +158,20 @@ def make_fragment(mod, fn, frag):
     verified; loop-carried names are visible through the returned locals())."""
     kind, _, arg = frag.partition('(')
     arg = arg.rstrip(')')
-    if kind != 'loopbody':
+    if kind not in ('loopbody', 'ifbody'):
         raise KeyError('unknown fragment selector %s' % frag)
     hits = []
     for node in ast.walk(fn):
-        if isinstance(node, ast.For):
+        if isinstance(node, ast.For if kind == 'loopbody' else ast.If):
             for st in node.body:
                 if isinstance(st, ast.Assign) and any(isinstance(t, ast.Name) and t.id == arg for t in st.targets):
                     hits.append(node)
                     break
+                if isinstance(st, (ast.ImportFrom, ast.Import)) and any((a.asname or a.name) == arg for a in st.names):
+                    hits.append(node)
+                    break
     if len(hits) != 1:
-        raise KeyError('fragment %s: %d matching loops in %s' % (frag, len(hits), fn.name))
+        raise KeyError('fragment %s: %d matching statements in %s' % (frag, len(hits), fn.name))
     loop = hits[0]
     loaded = []
 
@@ -177,12 +181,26 @@ def make_fragment(mod, fn, frag):
                 loaded.append(n.id)
 
     def scan(stmts, defined):
-        # names assigned by a plain `x = ...` earlier in the same block are locals of the fragment, not inputs
+        # names bound earlier in the same block (plain assignment, import, for target, or in BOTH branches of
+        # an if) are locals of the fragment, not inputs
         for st in stmts:
             if isinstance(st, ast.If):
                 loads(st.test, defined)
-                scan(st.body, set(defined))
+                d1, d2 = set(defined), set(defined)
+                scan(st.body, d1)
+                scan(st.orelse, d2)
+                defined |= (d1 & d2)
+            elif isinstance(st, ast.For):
+                loads(st.iter, defined)
+                d1 = set(defined)
+                for n in ast.walk(st.target):
+                    if isinstance(n, ast.Name):
+                        d1.add(n.id)
+                scan(st.body, d1)          # the body may not run: nothing is defined afterwards
                 scan(st.orelse, set(defined))
+            elif isinstance(st, (ast.Import, ast.ImportFrom)):
+                for a in st.names:
+                    defined.add(a.asname or a.name.split('.')[0])
             elif isinstance(st, ast.Assign):
                 loads(st.value, defined)
                 for t in st.targets:
@@ -193,12 +211,12 @@ def make_fragment(mod, fn, frag):
             else:
                 loads(st, defined)
     scan(loop.body, set())
-    if isinstance(loop.target, ast.Name) and loop.target.id not in loaded:
+    if kind == 'loopbody' and isinstance(loop.target, ast.Name) and loop.target.id not in loaded:
         loaded.append(loop.target.id)
     modnames = set(mod.funcs) | set(mod.classes) | set(mod.assigns) | set(mod.imports)
     params = [n for n in loaded if not hasattr(_builtins, n) and n not in modnames]
     ret = ast.Return(value=ast.Call(func=ast.Name(id='locals', ctx=ast.Load()), args=[], keywords=[]))
-    wrapper = ast.FunctionDef(name='%s__loopbody_%s' % (fn.name, arg),
+    wrapper = ast.FunctionDef(name='%s__%s_%s' % (fn.name, kind, arg),
                               args=ast.arguments(posonlyargs=[], args=[ast.arg(arg=p) for p in params], kwonlyargs=[],
                                                  kw_defaults=[], defaults=[]),
                               body=list(loop.body) + [ret], decorator_list=[])
